@@ -156,11 +156,8 @@ def asetPermanent (a : ASt) (rid : Nat) (v : Bool) : ASt :=
 
 def anew (a : ASt) (rid : Nat) (kind : DispKind) (path : Str) (src : Option (Nat × Option Nat))
     (port : Option Nat) (tmpl : Option (List TItem)) (fid : Nat) : ASt :=
-  let path' := match path with
-    | 47 :: _ => path
-    | _ => 47 :: path
   if (alookup a rid).isSome then a
-  else aenable { a with resps := a.resps ++ [(rid, ⟨kind, path', src, port, tmpl, .user fid, false, false⟩)] } rid
+  else aenable { a with resps := a.resps ++ [(rid, ⟨kind, normPath path, src, port, tmpl, .user fid, false, false⟩)] } rid
 
 def acmdPeriod (a : ASt) : ASt × List Nat :=
   go a a.cmd
